@@ -1,5 +1,112 @@
-From TT Require Import Base.Prelude Model.Iso6937 Model.StlTf Model.StlTriggers Spec.Ebu3264Spec Proofs.C09.Tables Proofs.C09.TextField.
+(* C09 — the EBU STL reader reproduces every subtitle's time, text and attributes.
+   Only statements, `exact`, and Print Assumptions.
+   M = Model/Iso6937.v, Model/StlTf.v, Model/StlDatafile.v (transcriptions of ttconv/stl/{iso6937,tf,datafile,reader}.py
+   over tables regenerated from the source) and Model/TimeCode.v (C12); S = Spec/Ebu3264Spec.v (Tech 3264 interpreter,
+   ISO 6937 repertoire derived from Unicode data, ISO 8859-5/6/7/8, SMPTE 12M counts) and Spec/Smpte12M.v.
+   Triggers of the recorded findings: Model/StlTriggers.v; their refutations: Findings/C09.v.
+   Finite domains (bytes, pairs of bytes) are decided in the kernel with the bound in the statement; everything else is
+   for all inputs.  NOT proved (compared on every run instead, harness/c09.py): that the whole-file pipeline
+   reader_model (GSI decoding, EBN grouping, cumulative sets, divisions per SGN) equals S's `presentation`. *)
+From Coq Require Import QArith.
+From TT Require Import Base.Prelude Gen.StlTables Model.TimeCode Model.Iso6937 Model.StlTf Model.StlDatafile Model.StlTriggers.
+From TT Require Import Spec.Smpte12M Spec.Ebu3264Spec.
+From TT Require Import Proofs.C09.Tables Proofs.C09.TextField Proofs.C09.Text Proofs.C09.Times Proofs.C09.Datafile.
+Open Scope Z_scope.
+
+(* ---- character code tables ---------------------------------------------------------------------------------- *)
+(* ISO 6937: every single byte and every pair of bytes decode as in the standard (all 156 diacritic + letter
+   compositions, the spacing forms, one U+FFFD for anything else) — outside finding iso6937-a4 (byte 0xA4) *)
+Theorem C09_iso6937_single_partial : forall b, 0 <= b < 256 -> b <> 164 -> decode6937 [b] = decode_iso6937 [b].
+Proof. exact iso6937_single. Qed.
+Theorem C09_iso6937_pair_partial : forall b1 b2, 0 <= b1 < 256 -> 0 <= b2 < 256 -> trigger_a4 [b1; b2] = false ->
+  decode6937 [b1; b2] = decode_iso6937 [b1; b2].
+Proof. exact iso6937_pair. Qed.
+(* ... and so do byte strings of any length *)
+Theorem C09_iso6937_partial : forall bs, Forall is_byte bs -> trigger_a4 bs = false -> decode6937 bs = decode_iso6937 bs.
+Proof. exact iso6937_list. Qed.
+(* CPython's iso8859_5..8 codecs (as regenerated tables) are the standard's tables *)
+Theorem C09_iso8859 : forall b, is_byte b ->
+  nth (Z.to_nat b) iso8859_5_table fffd = iso8859_5 b /\ nth (Z.to_nat b) iso8859_6_table fffd = iso8859_6 b /\
+  nth (Z.to_nat b) iso8859_7_table fffd = iso8859_7 b /\ nth (Z.to_nat b) iso8859_8_table fffd = iso8859_8 b.
+Proof. exact iso8859_tables. Qed.
+(* the decoder selected by the CCT field, on any byte string *)
+Theorem C09_decoder_partial : forall cct bs, Forall is_byte bs -> trigger_a4_cct cct bs = false ->
+  decoder_of_cct cct bs = decoder_spec cct bs.
+Proof. exact decoder_agrees. Qed.
+
+(* ---- text field -------------------------------------------------------------------------------------------------- *)
+(* the transcribed classifiers are the source's functions on every byte (table regenerated on every run) *)
+Theorem C09_classifiers : forall b, 0 <= b < 256 -> class_mask b = nth (Z.to_nat b) tf_class_table (-1).
+Proof. exact classifiers_are_source. Qed.
+(* the one-pass machine of tf.to_model = the staged Tech 3264 interpretation, for every list of integers, both
+   teletext and open, any decoder — outside finding blank-row-dropped.
+   Full statement (false, see Findings/C09.v C09_tf_refuted):  forall dec tele bs, map piece_of_leaf (tf_model dec tele bs) = tf_spec dec tele bs *)
 Theorem C09_tf_partial : forall dec tele bs, trigger_blank_row bs = false ->
   map piece_of_leaf (tf_model dec tele bs) = tf_spec dec tele bs.
 Proof. exact tf_refines. Qed.
-Print Assumptions C09_tf_partial.
+(* text, line breaks, colours, italics, underline of a text field under the declared character code table *)
+Theorem C09_text_partial : forall cct tele bs, Forall is_byte bs -> trigger_blank_row bs = false -> trigger_a4_cct cct bs = false ->
+  map piece_of_leaf (tf_model (decoder_of_cct cct) tele bs) = tf_spec (decoder_spec cct) tele bs.
+Proof. exact text_partial. Qed.
+(* "up to the first unused-space byte": bytes.strip(b'\x8f') is the cut, outside finding tf-strip-not-cut *)
+Theorem C09_strip_partial : forall tf, trigger_strip tf = false -> strip_8f tf = text_of_field tf.
+Proof. exact strip_is_cut. Qed.
+
+(* ---- times ------------------------------------------------------------------------------------------------------- *)
+(* the code's DFC table names the rates of S *)
+Theorem C09_dfc_rates :
+  map (fun kv => dfc_rate (fst kv)) dfc_fraction_map =
+  map (fun kv => let '(n, d) := snd kv in
+                 Some (mkFR n d (ceil_div n d) (if (n =? 30000) && (d =? 1001) then 2 else 0))) dfc_fraction_map.
+Proof. exact dfc_rates_agree. Qed.
+(* the n-th address of the SMPTE 12M counting sequence is presented n frame periods after 00:00:00:00 (from C12) *)
+Theorem C09_times_24 : forall n : nat, offset_q r24 (label_spec 24 0 n) = Qmake (Z.of_nat n) 24.  Proof. exact times24. Qed.
+Theorem C09_times_25 : forall n : nat, offset_q r25 (label_spec 25 0 n) = Qmake (Z.of_nat n) 25.  Proof. exact times25. Qed.
+Theorem C09_times_50 : forall n : nat, offset_q r50 (label_spec 50 0 n) = Qmake (Z.of_nat n) 50.  Proof. exact times50. Qed.
+Theorem C09_times_2997 : forall n : nat, offset_q r2997 (label_spec 30 2 n) = Qmake (Z.of_nat n * 1001) 30000.  Proof. exact times2997. Qed.
+(* and on every label, valid or not, the conversion is S's closed form *)
+Theorem C09_offset_24 : forall l, offset_q r24 l = time_of (mkFR 24 1 24 0) l.  Proof. exact offset24. Qed.
+Theorem C09_offset_25 : forall l, offset_q r25 l = time_of (mkFR 25 1 25 0) l.  Proof. exact offset25. Qed.
+Theorem C09_offset_50 : forall l, offset_q r50 l = time_of (mkFR 50 1 50 0) l.  Proof. exact offset50. Qed.
+Theorem C09_offset_2997 : forall l, offset_q r2997 l = time_of (mkFR 30000 1001 30 2) l.  Proof. exact offset2997. Qed.
+(* 24000/1001: only within the first minute (finding df-23976) *)
+Theorem C09_offset_23976_partial : forall l, beyond_first_minute l = false -> offset_q r23976 l = time_of (mkFR 24000 1001 24 0) l.
+Proof. exact offset23976_partial. Qed.
+
+(* ---- vertical position ------------------------------------------------------------------------------------------- *)
+(* rows needed = S's rows_occupied; the region is S's top-anchored region of row VP (VP < max_rows // 2) or S's
+   bottom-anchored region of the last row *)
+Theorem C09_rows : forall tf, line_count tf (has_double_height_char tf) * (if has_double_height_char tf then 2 else 1) = rows_occupied tf.
+Proof. exact rows_agree. Qed.
+Theorem C09_region : forall max_rows vp tf r, region_for max_rows vp tf (has_double_height_char tf) = Some r ->
+  (vp < max_rows / 2 /\ rect_equiv (rect_of r) (top_anchored max_rows vp)) \/
+  (max_rows / 2 <= vp /\ rect_equiv (rect_of r) (bottom_anchored max_rows (vp + rows_occupied tf - 1))).
+Proof. exact region_choice. Qed.
+(* both lie inside the safe area when the rows of the subtitle lie inside the grid; VP = 0 is finding vp-zero-above-safe-area *)
+Theorem C09_region_top_inside : forall rows vp, 0 < rows -> 1 <= vp <= rows + 1 -> inside_safe_area (top_anchored rows vp).
+Proof. exact top_inside. Qed.
+Theorem C09_region_bottom_inside : forall rows last, 0 < rows -> 0 <= last <= rows -> inside_safe_area (bottom_anchored rows last).
+Proof. exact bottom_inside. Qed.
+
+(* ---- subtitle numbers -------------------------------------------------------------------------------------------- *)
+(* `tti.SN is not self.last_sn` behaves as `!=` unless a paragraph-opening block repeats a subtitle number above 256 *)
+Theorem C09_sn_value_partial : forall file cfg, trigger_sn_identity file cfg = false -> reader_model file cfg = reader_gen false file cfg.
+Proof. exact sn_value_partial. Qed.
+
+(* non-vacuity *)
+Example C09_example_tf :
+  map piece_of_leaf (tf_model decode6937 true [13; 3; 200; 97; 32; 98; 138; 138; 128; 99; 143; 100]) =
+  [Run (mkAttrs 4294902015 255 false false) [228; 32; 98]; Break; Run (mkAttrs 4294967295 255 true false) [99]].
+Proof. vm_compute. reflexivity. Qed.
+Example C09_example_region : region_for 23 20 [65; 138; 66] false = Some (mkRegion (qz 5) (qz 10) (qz 90) (qz 21 / qz 23 * qz 80)%Q true).
+Proof. reflexivity. Qed.
+
+Print Assumptions C09_iso6937_single_partial.  Print Assumptions C09_iso6937_pair_partial.  Print Assumptions C09_iso6937_partial.
+Print Assumptions C09_iso8859.  Print Assumptions C09_decoder_partial.  Print Assumptions C09_classifiers.
+Print Assumptions C09_tf_partial.  Print Assumptions C09_text_partial.  Print Assumptions C09_strip_partial.
+Print Assumptions C09_dfc_rates.
+Print Assumptions C09_times_24.  Print Assumptions C09_times_25.  Print Assumptions C09_times_50.  Print Assumptions C09_times_2997.
+Print Assumptions C09_offset_24.  Print Assumptions C09_offset_25.  Print Assumptions C09_offset_50.  Print Assumptions C09_offset_2997.
+Print Assumptions C09_offset_23976_partial.
+Print Assumptions C09_rows.  Print Assumptions C09_region.  Print Assumptions C09_region_top_inside.  Print Assumptions C09_region_bottom_inside.
+Print Assumptions C09_sn_value_partial.
